@@ -14,6 +14,7 @@ import (
 	"os"
 	"os/exec"
 	"path/filepath"
+	"regexp"
 	"sort"
 	"strconv"
 	"strings"
@@ -126,14 +127,14 @@ type RunRec struct {
 	Run       int      `json:"run"`
 	Engine    string   `json:"engine"`
 	OptFsync  bool     `json:"optfsync"`
-	Spec      string   `json:"spec"`   // crash selection of this run
-	Start     string   `json:"start"`  // ready | died-at-startup-point | FAIL ... | timeout
+	Spec      string   `json:"spec"`  // crash selection of this run
+	Start     string   `json:"start"` // ready | died-at-startup-point | FAIL ... | timeout
 	Marker    *OpRec   `json:"marker,omitempty"`
-	Dump      []string `json:"dump,omitempty"`  // served state right after the restart (sorted lines)
-	Ops       []OpRec  `json:"ops"`             // writes issued in this run after the dump
-	Death     string   `json:"death"`           // crashpoint | external | startup-crashpoint | unexpected-exit | none
-	Events    []string `json:"events"`          // crash-point event log of this run
-	Listing   []string `json:"listing"`         // wal/snap/checkpoint names found after the death
+	Dump      []string `json:"dump,omitempty"` // served state right after the restart (sorted lines)
+	Ops       []OpRec  `json:"ops"`            // writes issued in this run after the dump
+	Death     string   `json:"death"`          // crashpoint | external | startup-crashpoint | unexpected-exit | none
+	Events    []string `json:"events"`         // crash-point event log of this run
+	Listing   []string `json:"listing"`        // wal/snap/checkpoint names found after the death
 	PortRetry int      `json:"port_retry"`
 	StartMs   int64    `json:"start_ms"`
 	Log       string   `json:"log,omitempty"` // tail of the child's log when the start failed
@@ -402,23 +403,43 @@ var runPoints = []string{
 	"sn.ckpt.started", "sn.ckpt.done", "sn.create.after", "ps.snapfile.after", "sn.savesnap.after", "sn.sync.after",
 	"sn.release.after", "sn.updstate.after", "sn.compact.after",
 	"ck.save.before", "ck.save.after", "ck.purge.before", "ck.purge.after",
+	"wl.cut.rename.before", "wl.cut.after",
 }
 
-// points passed during the start on an existing directory (selected through the environment)
+// points passed during the start on an existing directory (selected through the environment);
+// the snapshot points are reached by the first write after a restart that left a snapshot due
 var startPoints = []string{
 	"rc.snap.chosen", "rs.remove.after", "rs.copy.after", "rc.restore.after", "rc.replay.after",
-	"pg.remove.before", "pg.remove.after",
+	"pg.remove.before", "pg.remove.after", "rd.begin", "rd.walsave.before", "rd.walsave.after", "ap.apply.before",
+	"ps.snapfile.after", "sn.savesnap.after", "ck.save.before",
 }
 
-// how often a point is hit per write, roughly: used to pick k inside a run of ~opsPerRun writes
+// AllPoints is every crash point name the harness knows; the check compares it with the names found in the source.
+func AllPoints() []string {
+	m := map[string]bool{}
+	for _, p := range runPoints {
+		m[p] = true
+	}
+	for _, p := range startPoints {
+		m[p] = true
+	}
+	// follower-only points (incoming snapshot): never reached by a single-replica group
+	for _, p := range []string{"rd.savesnap.before", "rd.savesnap.after", "rd.applysnap.before", "rd.applysnap.after", "rd.release.after", "rc.snap.none"} {
+		m[p] = true
+	}
+	var out []string
+	for p := range m {
+		out = append(out, p)
+	}
+	sort.Strings(out)
+	return out
+}
+
 func isSnapPoint(p string) bool {
 	return strings.HasPrefix(p, "sn.") || strings.HasPrefix(p, "ck.") || strings.HasPrefix(p, "ps.")
 }
 
-type plan struct {
-	Spec     string // "P:<name>:<k>:<stall_ms>" | "X:<after_ops>:<ms>" | "S:<name>:<k>"
-	StartEnv string
-}
+func isCutPoint(p string) bool { return strings.HasPrefix(p, "wl.") }
 
 // ---------- one directory ----------
 
@@ -429,15 +450,18 @@ type dirJob struct {
 	optFsync bool
 	cycles   int
 	opsMax   int
-	port     int
 	specs    []string // forced specs (replay), else generated
 	thorough bool
 }
 
-func pickSpec(r *hx.Rng, run int, opsMax int, snapCount int, thorough bool) string {
+// spec: "P:<name>:<k>:<stall_ms>"  crash point armed once the restart is verified (k-th hit from then on)
+//
+//	"S:<name>:<k>"             crash point armed through the environment (hits counted from the process start)
+//	"X:<after_ops>:<quarter_ms>" kill -9 from outside while the given write is in flight
+func pickSpec(r *hx.Rng, cyc int, opsMax int, snapCount int, thorough bool) string {
 	c := r.Intn(100)
 	switch {
-	case run > 0 && c < 12:
+	case cyc > 0 && c < 14:
 		p := startPoints[r.Intn(len(startPoints))]
 		return fmt.Sprintf("S:%s:1", p)
 	case c < 30:
@@ -446,8 +470,9 @@ func pickSpec(r *hx.Rng, run int, opsMax int, snapCount int, thorough bool) stri
 		p := runPoints[r.Intn(len(runPoints))]
 		var k int
 		if isSnapPoint(p) {
-			// first, second or third snapshot of the run
-			k = 1 + r.Intn(3)
+			k = 1 + r.Intn(3) // first, second or third snapshot of the run
+		} else if isCutPoint(p) {
+			k = 1
 		} else {
 			switch r.Intn(3) {
 			case 0:
@@ -469,171 +494,235 @@ func pickSpec(r *hx.Rng, run int, opsMax int, snapCount int, thorough bool) stri
 	}
 }
 
-func runDir(self string, job dirJob, emit func(RunRec)) {
+// every worker slot owns three blocks of 5 ports and rotates through them: the previous child of the
+// slot is dead before the next one starts, and no other slot ever touches these ports
+type portAlloc struct {
+	base int
+	next int
+}
+
+const portsPerSlot = 15
+
+func (pa *portAlloc) get() int {
+	p := pa.base + (pa.next%3)*5
+	pa.next++
+	return p
+}
+
+func isEnvFailure(status, tail string) bool {
+	return strings.Contains(tail, "address already in use") || strings.Contains(status, "address already in use") ||
+		strings.Contains(tail, "too many open files") || strings.Contains(tail, "cannot allocate memory")
+}
+
+type live struct {
+	ch    *child
+	c     *rconn
+	evlog string
+}
+
+// startRun starts the child for run number rec.Run and waits until it serves or is dead; fills rec.Start.
+func startRun(self string, cfg *childCfg, pa *portAlloc, dir string, rec *RunRec, startEnv string) *live {
+	cfg.Port = pa.get()
+	evlog := filepath.Join(dir, fmt.Sprintf("ev.%d.log", rec.Run))
+	logPath := filepath.Join(dir, fmt.Sprintf("child.%d.log", rec.Run))
+	os.Remove(evlog)
+	t0 := time.Now()
+	ch, err := startChild(self, *cfg, evlog, startEnv, logPath)
+	if err != nil {
+		panic(err)
+	}
+	status := ""
+	select {
+	case l := <-ch.lines:
+		status = l
+	case <-ch.exited:
+		select {
+		case l := <-ch.lines:
+			status = l
+		default:
+			status = "exited"
+		}
+	case <-time.After(40 * time.Second):
+		status = "timeout"
+	}
+	rec.StartMs = time.Since(t0).Milliseconds()
+	lv := &live{ch: ch, evlog: evlog}
+	if status == "READY" {
+		rec.Start = "ready"
+		return lv
+	}
+	ch.kill()
+	tail := tailFile(logPath, 6000)
+	if startEnv != "" && strings.Contains(tailFile(evlog, 200), "KILL "+strings.Split(startEnv, ":")[0]) {
+		rec.Start = "died-at-startup-point"
+		return lv
+	}
+	if isEnvFailure(status, tail) {
+		rec.Start = "env-failure"
+		rec.Log = tail[len(tail)-min(len(tail), 600):]
+		return lv
+	}
+	rec.Start = status
+	rec.Log = tail
+	return lv
+}
+
+func min(a, b int) int {
+	if a < b {
+		return a
+	}
+	return b
+}
+
+func finishRun(dir string, lv *live, rec *RunRec, emit func(RunRec)) {
+	if _, err := os.Stat(lv.evlog); err == nil {
+		rec.Events = hx.ReadLines(lv.evlog)
+	}
+	rec.Listing = listing(dir)
+	emit(*rec)
+}
+
+// markerAndDump issues the first write after a restart (it is ordered behind everything the restart replays)
+// and reads the whole data back. Returns false when the connection died.
+func markerAndDump(lv *live, g *gen, rec *RunRec) bool {
+	mk := OpRec{Cmd: []string{"set", key("a", 0), fmt.Sprintf("%sm%d.", g.tag, rec.Run)}}
+	alive := true
+	for try := 0; try < 200; try++ {
+		v, isErr, err := lv.c.do(15*time.Second, mk.Cmd...)
+		if err != nil {
+			mk.Status = "lost"
+			alive = false
+			break
+		}
+		if isErr {
+			// not yet writable (leader just elected): the write was refused, not proposed
+			mk.Status, mk.Reply = "err", v
+			time.Sleep(50 * time.Millisecond)
+			continue
+		}
+		mk.Status, mk.Reply = "ack", v
+		break
+	}
+	rec.Marker = &mk
+	if alive && mk.Status == "ack" {
+		d, err := dump(lv.c)
+		if err != nil {
+			alive = false
+			rec.Dump = []string{"DUMP-ERROR " + err.Error()}
+		} else {
+			rec.Dump = d
+		}
+	}
+	return alive
+}
+
+func runDir(self string, job dirJob, pa *portAlloc, emit func(RunRec)) {
 	r := hx.NewRng(job.seed)
 	dir, err := ioutil.TempDir("", "verif-crash-")
 	if err != nil {
 		panic(err)
 	}
 	defer os.RemoveAll(dir)
-	cfg := childCfg{Dir: dir, Port: job.port, Engine: job.engine, SnapCount: 20, SegSize: 8192, Keep: 2, OptFsync: job.optFsync}
+	cfg := childCfg{Dir: dir, Engine: job.engine, SnapCount: 20, SegSize: 8192, Keep: 2, OptFsync: job.optFsync}
 	g := &gen{r: r, tag: fmt.Sprintf("d%d", job.id)}
 	run := 0
-	for cyc := 0; cyc < job.cycles; cyc++ {
+	envFailures := 0
+	newRec := func(spec string) *RunRec {
+		return &RunRec{Dir: job.id, Run: run, Engine: job.engine, OptFsync: job.optFsync, Spec: spec, Death: "none"}
+	}
+	for cyc := 0; cyc <= job.cycles; cyc++ {
+		final := cyc == job.cycles
 		var spec string
-		if cyc < len(job.specs) {
+		switch {
+		case final:
+			spec = "final"
+		case cyc < len(job.specs):
 			spec = job.specs[cyc]
-		} else {
+		default:
 			spec = pickSpec(r, cyc, job.opsMax, cfg.SnapCount, job.thorough)
 		}
-		if cyc == 0 && strings.HasPrefix(spec, "S:") {
-			spec = "X:10:0"
-		}
-		rec := RunRec{Dir: job.id, Run: run, Engine: job.engine, OptFsync: job.optFsync, Spec: spec}
 		startEnv := ""
 		if strings.HasPrefix(spec, "S:") {
 			f := strings.Split(spec, ":")
 			startEnv = f[1] + ":" + f[2]
 		}
-		// ---- start (retry on another port if the start fails for environmental reasons) ----
-		var ch *child
-		evlog := filepath.Join(dir, fmt.Sprintf("ev.%d.log", run))
-		t0 := time.Now()
-		for attempt := 0; ; attempt++ {
-			os.Remove(evlog)
-			logPath := filepath.Join(dir, fmt.Sprintf("child.%d.log", run))
-			ch, err = startChild(self, cfg, evlog, startEnv, logPath)
-			if err != nil {
-				panic(err)
+		rec := newRec(spec)
+		lv := startRun(self, &cfg, pa, dir, rec, startEnv)
+		if rec.Start == "env-failure" {
+			// the machine, not the node: this life of the process ended during its start; it is recorded as a
+			// run of its own (the path model follows it) and the cycle is tried again
+			rec.Death = "env-exit"
+			finishRun(dir, lv, rec, emit)
+			run++
+			envFailures++
+			if envFailures > 6 {
+				return
 			}
-			status := ""
-			select {
-			case l := <-ch.lines:
-				status = l
-			case <-ch.exited:
-				select {
-				case l := <-ch.lines:
-					status = l
-				default:
-					status = "exited"
-				}
-			case <-time.After(40 * time.Second):
-				status = "timeout"
-			}
-			if status == "READY" {
-				rec.Start = "ready"
-				break
-			}
-			ch.kill()
-			tail := tailFile(logPath, 6000)
-			if startEnv != "" && strings.Contains(tailFile(evlog, 200), "KILL "+strings.Split(startEnv, ":")[0]) {
-				rec.Start = "died-at-startup-point"
-				break
-			}
-			if attempt < 3 && (strings.Contains(tail, "address already in use") || strings.Contains(status, "address already in use")) {
-				cfg.Port += 7
-				rec.PortRetry++
-				continue
-			}
-			rec.Start = status
-			rec.Log = tail
-			break
+			cyc--
+			continue
 		}
-		rec.StartMs = time.Since(t0).Milliseconds()
 		if rec.Start == "died-at-startup-point" {
 			rec.Death = "startup-crashpoint"
-			rec.Events = hx.ReadLines(evlog)
-			rec.Listing = listing(dir)
-			emit(rec)
+			finishRun(dir, lv, rec, emit)
 			run++
 			continue
 		}
 		if rec.Start != "ready" {
-			// the node did not come back: reported by the oracle (violation unless environmental)
-			rec.Death = "none"
-			if _, err := os.Stat(evlog); err == nil {
-				rec.Events = hx.ReadLines(evlog)
-			}
-			rec.Listing = listing(dir)
-			emit(rec)
+			// the node did not come back on its own data: the oracle reports it
+			finishRun(dir, lv, rec, emit)
 			return
 		}
-		// ---- connected: marker write, dump ----
 		c, err := dial(cfg.Port, 5*time.Second)
 		if err != nil {
 			rec.Start = "noconnect " + err.Error()
-			ch.kill()
-			emit(rec)
+			lv.ch.kill()
+			finishRun(dir, lv, rec, emit)
 			return
 		}
-		died := false
-		{
-			mk := OpRec{Cmd: []string{"set", key("a", 0), fmt.Sprintf("%sm%d.", g.tag, run)}}
-			for try := 0; try < 100; try++ {
-				v, isErr, err := c.do(15*time.Second, mk.Cmd...)
-				if err != nil {
-					mk.Status = "lost"
-					died = true
-					break
-				}
-				if isErr {
-					// not yet writable (leader just elected): an error reply to a write means it was not proposed
-					mk.Status = "err"
-					mk.Reply = v
-					time.Sleep(50 * time.Millisecond)
-					continue
-				}
-				mk.Status, mk.Reply = "ack", v
-				break
-			}
-			rec.Marker = &mk
-			if !died && mk.Status == "ack" {
-				d, err := dump(c)
-				if err != nil {
-					died = true
-					rec.Dump = []string{"DUMP-ERROR " + err.Error()}
-				} else {
-					rec.Dump = d
-				}
-			}
+		lv.c = c
+		alive := markerAndDump(lv, g, rec)
+		if final {
+			c.close()
+			lv.ch.kill()
+			rec.Death = "external"
+			finishRun(dir, lv, rec, emit)
+			return
 		}
 		// ---- arm and write ----
-		extAfter, extMs := -1, 0
-		if !died {
+		extAfter, extUs := -1, 0
+		if alive {
 			f := strings.Split(spec, ":")
 			switch f[0] {
 			case "P":
-				fmt.Fprintf(ch.stdin, "ARM %s %s %s\n", f[1], f[2], f[3])
+				fmt.Fprintf(lv.ch.stdin, "ARM %s %s %s\n", f[1], f[2], f[3])
 				select {
-				case <-ch.lines:
-				case <-ch.exited:
-					died = true
+				case <-lv.ch.lines:
+				case <-lv.ch.exited:
+					alive = false
 				case <-time.After(10 * time.Second):
 				}
 			case "X":
 				extAfter, _ = strconv.Atoi(f[1])
-				extMs, _ = strconv.Atoi(f[2])
+				q, _ := strconv.Atoi(f[2])
+				extUs = q * 250
 			case "S":
-				// startup point was not reached in this start (e.g. nothing to purge): plain external kill
-				extAfter = 5
+				// the point was not reached by the start itself: it stays armed while we write
 			}
 		}
-		death := "external"
-		if !died {
+		if alive {
 			for i := 0; i < job.opsMax; i++ {
 				op := OpRec{Cmd: g.next()}
 				if extAfter >= 0 && i == extAfter {
-					// send the write and kill while it is in flight
 					go func(us int) {
 						time.Sleep(time.Duration(us) * time.Microsecond)
-						ch.cmd.Process.Kill()
-					}(extMs * 250)
+						lv.ch.cmd.Process.Kill()
+					}(extUs)
 				}
 				v, isErr, err := c.do(20*time.Second, op.Cmd...)
 				if err != nil {
 					op.Status = "lost"
 					rec.Ops = append(rec.Ops, op)
-					died = true
+					alive = false
 					break
 				}
 				if isErr {
@@ -643,107 +732,32 @@ func runDir(self string, job dirJob, emit func(RunRec)) {
 				}
 				rec.Ops = append(rec.Ops, op)
 			}
-			if died && extAfter < 0 {
-				death = "crashpoint"
-			}
 		}
 		c.close()
-		if !ch.waitExit(3 * time.Second) {
-			// the selected point was not reached within the run (or the process is stalling): kill from outside
-			ch.kill()
-			if death == "crashpoint" {
-				death = "external"
-			}
-		} else if death == "external" && extAfter < 0 {
-			death = "crashpoint"
+		exitedByItself := lv.ch.waitExit(3 * time.Second)
+		if !exitedByItself {
+			// the selected point was not reached within the run: kill -9 from outside
+			lv.ch.kill()
 		}
-		rec.Death = death
-		rec.Events = hx.ReadLines(evlog)
-		if n := len(rec.Events); n > 0 && strings.HasPrefix(rec.Events[n-1], "KILL ") {
+		evs := []string{}
+		if _, err := os.Stat(lv.evlog); err == nil {
+			evs = hx.ReadLines(lv.evlog)
+		}
+		switch {
+		case len(evs) > 0 && strings.HasPrefix(evs[len(evs)-1], "KILL "):
 			rec.Death = "crashpoint"
-		} else if rec.Death == "crashpoint" {
+		case extAfter >= 0 || !exitedByItself:
+			rec.Death = "external"
+		default:
 			rec.Death = "unexpected-exit"
-			rec.Log = tailFile(ch.logf, 6000)
+			rec.Log = tailFile(lv.ch.logf, 6000)
+			if isEnvFailure("", rec.Log) {
+				rec.Death = "env-exit"
+			}
 		}
-		rec.Listing = listing(dir)
-		emit(rec)
+		finishRun(dir, lv, rec, emit)
 		run++
 	}
-	// final restart: verify the last crash
-	rec := RunRec{Dir: job.id, Run: run, Engine: job.engine, OptFsync: job.optFsync, Spec: "final"}
-	evlog := filepath.Join(dir, fmt.Sprintf("ev.%d.log", run))
-	logPath := filepath.Join(dir, fmt.Sprintf("child.%d.log", run))
-	t0 := time.Now()
-	for attempt := 0; ; attempt++ {
-		os.Remove(evlog)
-		ch, err := startChild(self, cfg, evlog, "", logPath)
-		if err != nil {
-			panic(err)
-		}
-		status := ""
-		select {
-		case l := <-ch.lines:
-			status = l
-		case <-ch.exited:
-			select {
-			case l := <-ch.lines:
-				status = l
-			default:
-				status = "exited"
-			}
-		case <-time.After(40 * time.Second):
-			status = "timeout"
-		}
-		if status != "READY" {
-			ch.kill()
-			tail := tailFile(logPath, 6000)
-			if attempt < 3 && strings.Contains(tail, "address already in use") {
-				cfg.Port += 7
-				rec.PortRetry++
-				continue
-			}
-			rec.Start, rec.Log, rec.Death = status, tail, "none"
-			break
-		}
-		rec.Start = "ready"
-		c, err := dial(cfg.Port, 5*time.Second)
-		if err == nil {
-			mk := OpRec{Cmd: []string{"set", key("a", 0), fmt.Sprintf("%sm%d.", g.tag, run)}}
-			for try := 0; try < 100; try++ {
-				v, isErr, err := c.do(15*time.Second, mk.Cmd...)
-				if err != nil {
-					mk.Status = "lost"
-					break
-				}
-				if isErr {
-					mk.Status, mk.Reply = "err", v
-					time.Sleep(50 * time.Millisecond)
-					continue
-				}
-				mk.Status, mk.Reply = "ack", v
-				break
-			}
-			rec.Marker = &mk
-			if mk.Status == "ack" {
-				d, err := dump(c)
-				if err != nil {
-					rec.Dump = []string{"DUMP-ERROR " + err.Error()}
-				} else {
-					rec.Dump = d
-				}
-			}
-			c.close()
-		}
-		ch.kill()
-		rec.Death = "external"
-		break
-	}
-	rec.StartMs = time.Since(t0).Milliseconds()
-	if _, err := os.Stat(evlog); err == nil {
-		rec.Events = hx.ReadLines(evlog)
-	}
-	rec.Listing = listing(dir)
-	emit(rec)
 }
 
 // ---------- parent main ----------
@@ -761,6 +775,126 @@ type parentCfg struct {
 	Replay   string
 }
 
+var reWal = regexp.MustCompile(`^wal-1/([0-9a-f]{16})-([0-9a-f]{16})\.wal$`)
+var reSnap = regexp.MustCompile(`^snap-1/([0-9a-f]{16})-([0-9a-f]{16})\.snap$`)
+var reCk = regexp.MustCompile(`^rocksdb_backup/([0-9a-f]{16})-([0-9a-f]{16})$`)
+var reCkTmp = regexp.MustCompile(`^rocksdb_backup/([0-9a-f]{16})-([0-9a-f]{16})\.tmp$`)
+
+// hasTmpCheckpoint: a "<term>-<index>.tmp" directory left by a rocksdb checkpoint that was being written.
+// It sorts as index 0 of its term and is skipped or removed by purgeOldCheckpoint in ways the path model
+// (which has no terms) does not follow: from then on the checkpoint part of this directory's listings is not compared.
+func hasTmpCheckpoint(lst []string) bool {
+	for _, x := range lst {
+		if reCkTmp.MatchString(x) {
+			return true
+		}
+	}
+	return false
+}
+
+// listingLine projects a directory listing the way the model prints its world: wal name indices / snap files / checkpoints
+func listingLine(lst []string) string {
+	var w, s, c []int
+	for _, x := range lst {
+		if m := reWal.FindStringSubmatch(x); m != nil {
+			v, _ := strconv.ParseUint(m[2], 16, 64)
+			w = append(w, int(v))
+		}
+		if m := reSnap.FindStringSubmatch(x); m != nil {
+			v, _ := strconv.ParseUint(m[2], 16, 64)
+			s = append(s, int(v))
+		}
+		if m := reCk.FindStringSubmatch(x); m != nil {
+			v, _ := strconv.ParseUint(m[2], 16, 64)
+			c = append(c, int(v))
+		}
+	}
+	j := func(l []int) string {
+		sort.Ints(l)
+		p := make([]string, len(l))
+		for i, v := range l {
+			p[i] = strconv.Itoa(v)
+		}
+		return strings.Join(p, ",")
+	}
+	return j(w) + "/" + j(s) + "/" + j(c)
+}
+
+func isEvent(e string) bool {
+	e = strings.TrimSpace(e)
+	return e != "" && !strings.HasPrefix(e, "KILL") && !strings.HasPrefix(e, "ARM")
+}
+
+// writeCases turns the recorded runs into the model's input (cases.tsv: the event logs of every life of every
+// directory) and the implementation's observables (impl.out: per life the number of events, the directory
+// listing found after the death, and the log index up to which the NEXT start replayed).
+func writeCases(out string, recs []RunRec, keep int) {
+	byDir := map[int][]RunRec{}
+	var ids []int
+	for _, r := range recs {
+		if _, ok := byDir[r.Dir]; !ok {
+			ids = append(ids, r.Dir)
+		}
+		byDir[r.Dir] = append(byDir[r.Dir], r)
+	}
+	sort.Ints(ids)
+	cf := hx.Create(filepath.Join(out, "cases.tsv"))
+	io := hx.Create(filepath.Join(out, "impl.out"))
+	for _, d := range ids {
+		runs := byDir[d]
+		sort.Slice(runs, func(i, j int) bool { return runs[i].Run < runs[j].Run })
+		of := 0
+		if runs[0].OptFsync {
+			of = 1
+		}
+		var logs, outs []string
+		untracked := false
+		for i, r := range runs {
+			if hasTmpCheckpoint(r.Listing) {
+				untracked = true
+			}
+			ll := listingLine(r.Listing)
+			if untracked {
+				ll = ll[:strings.LastIndex(ll, "/")+1] + "~"
+			}
+			logs = append(logs, strings.Join(r.Events, ";")+"@@"+ll)
+			n := 0
+			for _, e := range r.Events {
+				if isEvent(e) {
+					n++
+				}
+			}
+			rec := "?"
+			if i+1 < len(runs) {
+				base, seen := 0, false
+				for _, e := range runs[i+1].Events {
+					f := strings.Fields(e)
+					if len(f) == 3 && f[0] == "rc.snap.chosen" {
+						base, _ = strconv.Atoi(f[2])
+					}
+					if len(f) == 4 && f[0] == "rc.replay.after" {
+						cnt, _ := strconv.Atoi(f[1])
+						last, _ := strconv.Atoi(f[2])
+						if cnt > 0 && last > base {
+							base = last
+						}
+						seen = true
+						break
+					}
+				}
+				if seen {
+					rec = strconv.Itoa(base)
+				}
+			}
+			outs = append(outs, fmt.Sprintf("ok:%d L=%s rec=%s", n, ll, rec))
+		}
+		cf.Printf("d%d\tD\t%d,%d,%d\t%s\n", d, keep, keep, of, strings.Join(logs, " | "))
+		io.Printf("d%d\t%s\n", d, strings.Join(outs, " | "))
+	}
+	cf.Close()
+	io.Close()
+}
+
 func runParent(pc parentCfg) {
 	self, err := os.Executable()
 	if err != nil {
@@ -773,10 +907,12 @@ func runParent(pc parentCfg) {
 	}
 	defer tf.Close()
 	var mu sync.Mutex
+	var all []RunRec
 	emit := func(r RunRec) {
 		b, _ := json.Marshal(r)
 		mu.Lock()
 		tf.Write(append(b, '\n'))
+		all = append(all, r)
 		mu.Unlock()
 	}
 	var jobs []dirJob
@@ -799,42 +935,29 @@ func runParent(pc parentCfg) {
 		}
 		for i, j := range rp.Jobs {
 			jobs = append(jobs, dirJob{id: i, seed: j.Seed, engine: j.Engine, optFsync: j.OptFsync, cycles: len(j.Specs),
-				opsMax: j.OpsMax, port: pc.Port + i*40, specs: j.Specs})
+				opsMax: j.OpsMax, specs: j.Specs})
 		}
 	} else {
 		master := hx.NewRng(pc.Seed)
 		for i := 0; i < pc.Dirs; i++ {
 			jobs = append(jobs, dirJob{id: i, seed: master.Int63(), engine: pc.Engines[i%len(pc.Engines)], optFsync: i%3 != 2,
-				cycles: pc.Cycles, opsMax: pc.OpsMax, port: pc.Port + i*40, thorough: pc.Thorough})
+				cycles: pc.Cycles, opsMax: pc.OpsMax, thorough: pc.Thorough})
 		}
 	}
-	// the job list is what a replay needs
-	jf, _ := os.Create(filepath.Join(pc.Out, "jobs.json"))
-	type jrec struct {
-		Seed     int64  `json:"seed"`
-		Engine   string `json:"engine"`
-		OptFsync bool   `json:"optfsync"`
-		OpsMax   int    `json:"ops_max"`
-		Cycles   int    `json:"cycles"`
+	slots := make(chan int, pc.Workers)
+	for i := 0; i < pc.Workers; i++ {
+		slots <- i
 	}
-	var jl []jrec
-	for _, j := range jobs {
-		jl = append(jl, jrec{j.seed, j.engine, j.optFsync, j.opsMax, j.cycles})
-	}
-	jb, _ := json.Marshal(jl)
-	jf.Write(jb)
-	jf.Close()
-
-	sem := make(chan struct{}, pc.Workers)
 	var wg sync.WaitGroup
 	for _, j := range jobs {
 		wg.Add(1)
-		sem <- struct{}{}
-		go func(j dirJob) {
+		slot := <-slots
+		go func(j dirJob, slot int) {
 			defer wg.Done()
-			defer func() { <-sem }()
-			runDir(self, j, emit)
-		}(j)
+			defer func() { slots <- slot }()
+			runDir(self, j, &portAlloc{base: pc.Port + slot*portsPerSlot}, emit)
+		}(j, slot)
 	}
 	wg.Wait()
+	writeCases(pc.Out, all, 2)
 }
